@@ -84,7 +84,7 @@ pub fn cases() -> Vec<CorpusCase> {
             };
             out.push(CorpusCase {
                 name: format!("{}-{}", comp.name(), pkg.as_str()),
-                case: ContCase { content, dir, pkg, extra, id_gap: 0 },
+                case: ContCase { content, dir, pkg, extra, id_gap: 0, first_id: 1 },
                 concat_rot: if pkg == Pkg::OneFile { None } else { Some(n % 3) },
             });
         }
